@@ -15,7 +15,7 @@
 use crate::transcript::{Rec, Transcript, Val};
 use multiboot2::*;
 use multiboot2_common::DynSizedStructure;
-use std::panic::{catch_unwind, AssertUnwindSafe};
+use crate::panics::catch;
 
 type Generic = DynSizedStructure<TagHeader>;
 
@@ -35,10 +35,6 @@ impl Default for MbiOpts {
     fn default() -> Self {
         Self { debug: true, max_steps: 1 << 16, typed_all: true }
     }
-}
-
-fn catch<R>(f: impl FnOnce() -> R) -> Option<R> {
-    catch_unwind(AssertUnwindSafe(f)).ok()
 }
 
 fn str_val(rec: &Rec, r: Result<&str, StringError>) -> Val {
